@@ -111,6 +111,16 @@ PInvUnambiguousPairs == (row > 0 /\ PCur \in Small) => \A T2 \in Small : T2 # PC
 \* and literally the definition, on the look-alikes
 PInvUnambiguousLookAlikes == row = 0 => Unambiguous(LookAlikes)
 
+\* near misses (see Print!ParsePrintsBack): every text of the small universe with one token
+\* dropped, and (thorough) with one token replaced by a delimiter
+Replacements == IF Depth >= 3 THEN {"|", ",", ")", "(", "->"} ELSE {}
+NearMisses(s) == {DropTok(s, p) : p \in 1..Len(s)}
+                 \cup {ReplaceTok(s, p, t) : p \in 1..Len(s), t \in Replacements}
+PInvNearMisses == (row > 0 /\ PCur \in Small) =>
+                     \A s \in PrintSet(PCur) : \A x \in NearMisses(s) : ParsePrintsBack(x)
+NegTexts == UNION {UNION {NearMisses(s) : s \in PrintSet(T)} : T \in Small} \ UNION {PrintSet(T) : T \in Small}
+NegSeq == SetToSeq(NegTexts)
+
 PInit == row = 0
 PNext == \/ row = 0 /\ row' \in {-c : c \in 1..Chunks}
          \/ row < 0 /\ row' \in {i \in 1..PN : i % Chunks = (-row) % Chunks}
@@ -132,5 +142,10 @@ PEmit ==
             texts |-> SetToSeq({JoinStr(s) : s \in PrintSet(T)}),
             sel |-> [j \in 1..Len(VSeq) |-> B(Matches(TagOf(VSeq[j]), T))]]])
   /\ ndJsonSerialize(Out \o "/print_pool.ndjson", [j \in 1..Len(VSeq) |-> [j |-> j, v |-> WireV(VSeq[j])]])
-  /\ PrintT(<<"PRINT_UNIVERSE", PN, Len(UUSeq), TextCount, Len(VSeq)>>)
+  /\ ndJsonSerialize(Out \o "/print_neg.ndjson",
+        [i \in 1..Len(NegSeq) |->
+           LET r == ParseType(NegSeq[i]) IN
+           [text |-> JoinStr(NegSeq[i]), ok |-> B(~IsNone(r)),
+            t |-> IF IsNone(r) THEN None ELSE Wire(r.t), rest |-> IF IsNone(r) THEN 0 ELSE r.rest]])
+  /\ PrintT(<<"PRINT_UNIVERSE", PN, Len(UUSeq), TextCount, Len(VSeq), Len(NegSeq)>>)
 =============================================================================
